@@ -28,6 +28,15 @@ add("C17", "model-based (stateful) property testing: generated operation histori
     "Trusts the Go model and the marshalling in cdrv/maparr_drv.c. Leaks and allocation-failure paths are out of scope.",
     "DESIGN.md §4 C17")
 
+add("C10", "property-based differential testing against math/big through the real compiler and executables (rapid)",
+    "Generated batches of integer literals (12 types x boundary-heavy values up to 300 bits x decimal/hex/octal/binary spellings with separators, case variants and the three negation forms x 5 positions) are type-checked and the set of rejected lines must equal the out-of-range set exactly; the accepted lines are compiled natively, run, and must print their exact value. Exploration.",
+    "Trusts math/big and io::Println's decimal printing of the value. Decimal literals with leading zeros are not generated (base undocumented). One recorded known finding (i256 minimum with a separated minus sign) is excluded by construction.",
+    "DESIGN.md §4 C10")
+add("C15", "exhaustive enumeration of small import graphs + rapid graph/schedule generation; oracle = reachability/cycle analysis and computed value",
+    "Every digraph on <=3 modules and generated graphs up to 40 modules (dense random, layered DAGs with back edges, wide fan-outs, chains with chords; plain/aliased/doubly-aliased imports) are compiled under generated schedules (GOMAXPROCS x hook delays at module granularity). Cyclic => circular-import error, no executable, no hang; acyclic => compiles, every reachable module processed once per phase, executable prints the value computed from the graph. Exploration; exhaustive for n<=3.",
+    "Schedules are steered only at module granularity (verif hook) and by GOMAXPROCS; a hang is a 25 s timeout re-confirmed through the CLI. The processed-once observation relies on the compiler's own -d trace.",
+    "DESIGN.md §4 C15")
+
 def main():
     props = [json.loads(l) for l in open(os.path.join(V, "properties.jsonl"))]
     checks, na = [], []
